@@ -424,7 +424,7 @@ class Element(ABC):
             substitute=substitute,
             identifier=identifier,
             values=values,
-        ).subs(substitutions)
+        ).subs(substitutions, simultaneous=not substitute)
 
     def to_latex(self) -> str:
         """
@@ -1810,7 +1810,7 @@ class Container(Element):
             identifiers=identifiers,
             values=values,
             subcircuits=subcircuits,
-        ).subs(substitutions)
+        ).subs(substitutions, simultaneous=not substitute)
 
     def generate_element_identifiers(self, running: bool) -> Dict[Element, int]:
         """
